@@ -62,8 +62,8 @@ func observe(dir, cwdRel string, args []string, env []string) runObs {
 
 func checkC13(r *report.Report, tier string, seed int64) error {
 	n := tierN(tier, 40, 600)
-	reps := tierN(tier, 5, 25)
-	r.Rule = fmt.Sprintf("accepted and rejected inputs of the general stream, inputs with several imports incl. two blank imports sharing their last path element plus a notation using that name, each run %d times in fresh processes: from the package directory with a relative path, from the module root, with an absolute path, with extra environment variables, with a different TMPDIR, and concurrently; plus histories (run, edit an imported package in another directory, run) compared with a run from a clean copy; observables: exit status, normalised stderr, stdout, output bytes; non-trivial = the run produced an output file or a diagnostic; distinct by file contents", reps)
+	reps := tierN(tier, 6, 24)
+	r.Rule = fmt.Sprintf("accepted and rejected inputs of the general stream, inputs with several imports incl. two blank imports sharing their last path element plus a notation using that name, each run %d times in fresh processes: from the package directory with a relative path, from the module root, with an absolute path, with extra environment variables, with a different TMPDIR, a second time in place under the environment go generate sets for a directive of another package (GOPACKAGE, GOLINE, ...), and concurrently; plus histories (run, edit an imported package in another directory, run) compared with a run from a clean copy; observables: exit status, normalised stderr, stdout, output bytes; non-trivial = the run produced an output file or a diagnostic; distinct by file contents", reps)
 	type job struct{ c *gen.Case }
 	var jobs []job
 	opt := gen.DefaultOptions()
@@ -92,7 +92,13 @@ func checkC13(r *report.Report, tier string, seed int64) error {
 					return
 				}
 				var o runObs
-				switch k % 5 {
+				switch k % 6 {
+				case 5:
+					// a second run in place (previous output present) under the environment `go generate` sets
+					// for a directive that lives in a file of another package
+					_ = observe(dir, "pk", []string{"setup.go"}, nil)
+					o = observe(dir, "pk", []string{"setup.go"}, []string{"GOPACKAGE=tools", "GOLINE=7", "GOARCH=amd64", "GOOS=linux", "DOLLAR=$"})
+					descs = append(descs, "second run in place, go-generate environment of another package")
 				case 0:
 					o = observe(dir, "pk", []string{"setup.go"}, nil)
 					descs = append(descs, "cwd=pk relative")
